@@ -189,6 +189,21 @@ Section RK.
     let k4 := f (psi + dt * k3) in
     psi + dt * (k1 + rz 2 * k2 + rz 2 * k3 + k4) * rinv 1 1 0 0 0 0.
 
+  (* the same with the stage Hamiltonians as separate arguments: ham1 = H(t) for k1, ham2 = H(t + dt/2)
+     for k2 AND k3, ham3 = H(t + dt) for k4 (time-dependent Hamiltonians) *)
+  Definition rk4_step_t (H1 H2 H3 dt psi : R) : R :=
+    let f := fun h s => ropp K (ri K) * (h * s) in
+    let k1 := f H1 psi in
+    let k2 := f H2 (psi + dt * k1 * u2 K) in
+    let k3 := f H2 (psi + dt * k2 * u2 K) in
+    let k4 := f H3 (psi + dt * k3) in
+    psi + dt * (k1 + rz 2 * k2 + rz 2 * k3 + k4) * rinv 1 1 0 0 0 0.
+
+  (* sum_{j<=m} (-i x)^j / j!  psi  for a given exponent x (e.g. x = H0 * int f) *)
+  Definition taylor4x (x psi : R) : R :=
+    let y := ropp K (ri K) * x in
+    (r1 K + y + rpow y 2 * rinv 1 0 0 0 0 0 + rpow y 3 * rinv 1 1 0 0 0 0 + rpow y 4 * rinv 3 1 0 0 0 0) * psi.
+
   (* sum_{j<=m} (-i dt H)^j / j!  psi *)
   Definition taylor4 (H dt psi : R) : R :=
     let x := ropp K (ri K) * dt * H in
@@ -211,12 +226,27 @@ Section RK.
     let k6 := f (psi + dt * (ropp K (rz 8 * k1 * rinv 0 3 0 0 0 0) + rz 2 * k2 - rz 3544 * k3 * rinv 0 3 1 0 0 1
                              + rz 1859 * k4 * rinv 3 3 0 0 0 1 - rz 11 * k5 * rinv 3 0 1 0 0 0)) in
     (k1, k2, k3, k4, k5, k6).
+  (* stage i uses its own Hamiltonian: ham1 = H(t), ham2 = H(t + dt/4), ham3 = H(t + 3dt/8),
+     ham4 = H(t + 12dt/13), ham5 = H(t + dt), ham6 = H(t + dt/2) *)
+  Definition rk45_stages_t (H1 H2 H3 H4 H5 H6 : R) (dt psi : R) : R * R * R * R * R * R :=
+    let f := fun h s => ropp K (ri K) * (h * s) in
+    let k1 := f H1 psi in
+    let k2 := f H2 (psi + dt * k1 * rinv 2 0 0 0 0 0) in
+    let k3 := f H3 (psi + dt * (rz 3 * k1 + rz 9 * k2) * rinv 5 0 0 0 0 0) in
+    let k4 := f H4 (psi + dt * (rz 1932 * k1 - rz 7200 * k2 + rz 7296 * k3) * rinv 0 0 0 0 3 0) in
+    let k5 := f H5 (psi + dt * (rz 439 * k1 * rinv 3 3 0 0 0 0 - rz 8 * k2 + rz 3680 * k3 * rinv 0 3 0 0 0 1
+                                - rz 845 * k4 * rinv 3 3 0 0 0 1)) in
+    let k6 := f H6 (psi + dt * (ropp K (rz 8 * k1 * rinv 0 3 0 0 0 0) + rz 2 * k2 - rz 3544 * k3 * rinv 0 3 1 0 0 1
+                                + rz 1859 * k4 * rinv 3 3 0 0 0 1 - rz 11 * k5 * rinv 3 0 1 0 0 0)) in
+    (k1, k2, k3, k4, k5, k6).
   Definition rk45_weights (ks : R * R * R * R * R * R) : R :=
     let '(k1, k2, k3, k4, k5, k6) := ks in
     rz 16 * k1 * rinv 0 3 1 0 0 0 + rz 6656 * k3 * rinv 0 3 2 0 0 1 + rz 28561 * k4 * rinv 1 3 1 1 0 1
     - rz 9 * k5 * rinv 1 0 2 0 0 0 + rz 2 * k6 * rinv 0 0 1 1 0 0.
   Definition rk45_step_prefix (H dt psi : R) : R :=
     psi - ri K * dt * rk45_weights (rk45_stages (fun s => H * s) dt psi).
+  Definition rk45_step_t (H1 H2 H3 H4 H5 H6 dt psi : R) : R :=
+    psi + dt * rk45_weights (rk45_stages_t H1 H2 H3 H4 H5 H6 dt psi).
   Definition rk45_step (H dt psi : R) : R :=
     psi + dt * rk45_weights (rk45_stages (fun s => ropp K (ri K) * (H * s)) dt psi).
 End RK.
@@ -224,6 +254,8 @@ End RK.
 (* the tableau literals as data, compared with the literals parsed from solvers.py on every run:
    (numerator, denominator) lists *)
 Definition rk4_tableau : list (Z * Z) := [(1, 2); (1, 2); (1, 1); (1, 6); (2, 6); (2, 6); (1, 6)]%Z.
+(* times (as fractions of dt after t) at which the stage Hamiltonians ham2, ham3, ... are evaluated *)
+Definition rk4_nodes : list (Z * Z) := [(1, 2); (1, 1)]%Z.
 Definition rk45_nodes : list (Z * Z) := [(1, 4); (3, 8); (12, 13); (1, 1); (1, 2)]%Z.
 Definition rk45_tableau : list (list (Z * Z)) :=
   [[(1, 4)];
